@@ -198,10 +198,10 @@ fn drive_lists(dev: &mut LogDev, tok: Token, chan: bool) -> core::result::Result
                 break;
             }
             match item {
-                Ok(cl::Token::ChannelSpec(s)) => drive_spec(dev, s),
+                Ok(cl::Token::ChannelSpec(s)) => drive_spec(dev, s, budget),
                 Ok(cl::Token::ChannelRange(a, b)) => {
-                    drive_spec(dev, a);
-                    drive_spec(dev, b);
+                    drive_spec(dev, a, budget);
+                    drive_spec(dev, b, budget);
                 }
                 Ok(_) => {}
                 Err(_) => break,
@@ -231,11 +231,11 @@ fn drive_lists(dev: &mut LogDev, tok: Token, chan: bool) -> core::result::Result
     }
 }
 
-fn drive_spec(dev: &mut LogDev, s: cl::ChannelSpec) {
+fn drive_spec(dev: &mut LogDev, s: cl::ChannelSpec, budget: usize) {
     let mut n = 0;
     for d in s {
         n += 1;
-        if n > 64 {
+        if n > budget {
             dev.runaway.push("ChannelSpec iterator does not terminate".into());
             break;
         }
